@@ -78,6 +78,20 @@ Theorem C07_preproc_bounds :
 Proof. exact preproc_bounds. Qed.
 Print Assumptions C07_preproc_bounds.
 
+(* the estimator (SimpleRampdown): every session handed to it has a bound afterwards, stored under its SESSION id,
+   and a bound updated from last period's pilot / rate is clipped to [0, max pilot] *)
+Theorem C07_estimator_bounds :
+  forall inf rp (l : list session) s,
+    In s l ->
+    (exists b, zassoc (s_id s) (rampdown inf rp l) = Some b)
+    /\ forall pp pr ub, 0 <= nthQ (i_maxp inf) (s_station s) ->
+         0 <= ramp_update rp (nthQ (i_maxp inf) (s_station s)) pp pr ub
+         /\ ramp_update rp (nthQ (i_maxp inf) (s_station s)) pp pr ub <= nthQ (i_maxp inf) (s_station s).
+Proof.
+  intros inf rp l s I. split; [now apply rampdown_has_bound|]. intros. now apply ramp_update_range.
+Qed.
+Print Assumptions C07_estimator_bounds.
+
 (* preprocessing keeps one session per station and never invents sessions *)
 Theorem C07_preproc_sessions :
   forall (feasible : list Q -> bool) inf period est unint (ss : list session),
